@@ -245,5 +245,27 @@ theorem insert_spec (cfg : Cfg) {l l' : AnyList} {mem size : Nat} (hS : l.SInv) 
       cases h
   | small sl => exact absurd hS (by simp [SInv])
 
+/-- `insert(mem, size)` of a range that is apart from the free cells never fails for another reason than "not even
+one node fits" (`size / node_size = 0`, where the code divides the block into zero nodes: undefined behaviour) -/
+theorem insert_total (cfg : Cfg) {l : AnyList} {mem size : Nat} (hS : l.SInv) (hpos : 0 < l.nodeSize)
+    (hap : l.CellsApart mem (size / l.nodeSize)) (hout : OutObj l.obj mem (size / l.nodeSize * l.nodeSize))
+    (hm0 : 0 < mem) : (∃ l', l.insert cfg mem size = .ok l') ∨ size / l.nodeSize = 0 := by
+  by_cases hk : size / l.nodeSize = 0
+  · exact Or.inr hk
+  · left
+    cases l with
+    | free fl =>
+      simp only [nodeSize] at hk
+      simp only [insert, FreeList.insert, FreeList.insertImpl]
+      rw [if_neg hk]
+      exact ⟨_, rfl⟩
+    | ord ol =>
+      simp only [SInv] at hS
+      simp only [nodeSize] at hpos hap hout hk
+      have hout' : RunOut ol mem (size / ol.ns) := OutObj.ord hS (by simpa [obj] using hout)
+      obtain ⟨l1, h1, _⟩ := OrdList.insert_run cfg ol hS mem size (Nat.pos_of_ne_zero hk) hap hout' hm0
+      exact ⟨.ord l1, by simp [insert, h1]⟩
+    | small sl => exact absurd hS (by simp [SInv])
+
 end AnyList
 end MemVerif.Model
